@@ -25,7 +25,8 @@ pub const ENTRY: Entry = Entry {
            thorough adds a second fault at every index of the follow-up. Oracle: Err whose variant names the failing component and \
            carries the injected error; no panic; no further low-level operation after the failure; then, fault cleared, clear + \
            set_pixel on the same object make the panel window equal to the canvas and touch nothing outside it (also after \
-           retrying the very same call without a fault, which must succeed and take full effect); is_sleeping() reflects \
+           retrying the very same call without a fault, which must succeed and take full effect; a failed init is retried \
+           through the same lent interface and must then satisfy the C11/C17 oracles); is_sleeping() reflects \
            the last successful sleep/wake. Non-trivial = every injected fault that fired (each is a distinct (operation, k, mode)).",
     assumptions: &[
         "a failed operation is not seen by the device (a failed strobe latches nothing, a failed SPI write delivers nothing)",
@@ -97,6 +98,20 @@ fn init_faults(ctx: &Ctx, acc: &mut Acc, cfg: &Cfg) {
                 }
                 if bad.is_none() && b.ops != k + 1 {
                     bad = mk("operations-after-failure", format!("{} further low-level operations after the failure", b.ops - k - 1));
+                }
+            }
+            // "wedges nothing": initialise again through the same (lent) interface once the fault has cleared
+            if bad.is_none() && mode == FaultMode::Unchanged {
+                drop(b);
+                let (first, retry) = init_run_retry(cfg, &[Fault { at: k, mode }]);
+                acc.count("init_retries", 1);
+                let mk2 = |kind: &str, m: String| Some((format!("init/retry/{kind}"), format!("{name} on {:?} (rst {}), first attempt failed at low-level operation {k}, then initialised again through the same interface: {m}", cfg.tr, cfg.rst)));
+                if first.is_ok() {
+                    bad = mk2("first-attempt", "the faulted first attempt returned Ok".into());
+                } else if let Some((s, m)) = super::c11::check_c11(&retry) {
+                    bad = mk2(&s.replace('/', "-"), m);
+                } else if let Some((s, m)) = super::c11::check_c17(&retry) {
+                    bad = mk2(&s.replace('/', "-"), m);
                 }
             }
             if let Some((sig, msg)) = bad {
@@ -357,7 +372,7 @@ fn run(ctx: &Ctx) -> Part {
             for rst in [false, true] {
                 let opts: &[(u8, bool, bool, u8)] = if quick { &[(3, true, true, 2)] } else { &[(3, true, true, 2), (0, false, false, 0), (6, false, true, 1)] };
                 for &(orient, bgr, invert, refresh) in opts {
-                    init_cfgs.push(Cfg { model: ModelId::Builtin(i as u8), tr, win: None, orient, bgr, invert, refresh, rst });
+                    init_cfgs.push(Cfg { model: ModelId::Builtin(i as u8), tr, win: None, orient, bgr, invert, refresh, rst, flags: 0 });
                 }
             }
         }
@@ -380,7 +395,7 @@ fn run(ctx: &Ctx) -> Part {
             cfgs.push(Cfg::tiny(8, 6, false, tr, (3, 4, 5, 0), 4));
         }
         // one built-in model with a small window (through the model's own type, not the Any8 wrapper)
-        cfgs.push(Cfg { model: ModelId::Builtin(12), tr, win: Some((5, 4, 2, 3)), orient: 2, bgr: false, invert: false, refresh: 0, rst: false });
+        cfgs.push(Cfg { model: ModelId::Builtin(12), tr, win: Some((5, 4, 2, 3)), orient: 2, bgr: false, invert: false, refresh: 0, rst: false, flags: 0 });
         for cfg in cfgs {
             let (lw, lh) = cfg.geo().lsize();
             for (prefix, op) in op_alphabet(lw, lh) {
@@ -412,6 +427,7 @@ fn run(ctx: &Ctx) -> Part {
     }
     part.require("variant:InitError::ResetPin", 1);
     part.require("retries_after_failure", 100);
+    part.require("init_retries", 100);
     part
 }
 
